@@ -305,6 +305,112 @@ func main() {
 }
 """
 
+BONDGO_PROGS["taps1.go"] = """package main
+
+import (
+	"bondgo"
+)
+
+func second() {
+	var sin bondgo.Input
+	var stap bondgo.Output
+	var snext bondgo.Output
+	var v uint8
+	sin = bondgo.Make(bondgo.Input, 20)
+	snext = bondgo.Make(bondgo.Output, 21)
+	stap = bondgo.Make(bondgo.Output, 31)
+	for {
+		v = bondgo.IORead(sin)
+		v = v + 2
+		bondgo.IOWrite(snext, v)
+		bondgo.IOWrite(stap, v)
+	}
+}
+
+func third() {
+	var tin bondgo.Input
+	var tout bondgo.Output
+	var v uint8
+	tin = bondgo.Make(bondgo.Input, 21)
+	tout = bondgo.Make(bondgo.Output, 32)
+	for {
+		v = bondgo.IORead(tin)
+		v++
+		bondgo.IOWrite(tout, v)
+	}
+}
+
+func main() {
+	var src bondgo.Input
+	var feed bondgo.Output
+	var tap bondgo.Output
+	var x uint8
+	src = bondgo.Make(bondgo.Input, 4)
+	feed = bondgo.Make(bondgo.Output, 20)
+	tap = bondgo.Make(bondgo.Output, 30)
+	go second()
+	go third()
+	for {
+		x = bondgo.IORead(src)
+		bondgo.IOWrite(feed, x)
+		bondgo.IOWrite(tap, x)
+	}
+}
+"""
+
+BONDGO_PROGS["taps2.go"] = """package main
+
+import (
+	"bondgo"
+)
+
+func second() {
+	var sin bondgo.Input
+	var stap bondgo.Output
+	var snext bondgo.Output
+	var v uint8
+	sin = bondgo.Make(bondgo.Input, 20)
+	stap = bondgo.Make(bondgo.Output, 31)
+	snext = bondgo.Make(bondgo.Output, 21)
+	for {
+		v = bondgo.IORead(sin)
+		v = v + 2
+		bondgo.IOWrite(snext, v)
+		bondgo.IOWrite(stap, v)
+	}
+}
+
+func third() {
+	var tin bondgo.Input
+	var tout bondgo.Output
+	var v uint8
+	tin = bondgo.Make(bondgo.Input, 21)
+	tout = bondgo.Make(bondgo.Output, 32)
+	for {
+		v = bondgo.IORead(tin)
+		v++
+		bondgo.IOWrite(tout, v)
+	}
+}
+
+func main() {
+	var src bondgo.Input
+	var feed bondgo.Output
+	var tap bondgo.Output
+	var x uint8
+	src = bondgo.Make(bondgo.Input, 4)
+	tap = bondgo.Make(bondgo.Output, 30)
+	feed = bondgo.Make(bondgo.Output, 20)
+	go second()
+	go third()
+	for {
+		x = bondgo.IORead(src)
+		bondgo.IOWrite(feed, x)
+		bondgo.IOWrite(tap, x)
+	}
+}
+"""
+
 BMB_BASM = """%%meta bmdef global registersize:%d
 %%section code .romtext iomode:async
 	entry _start
@@ -325,6 +431,9 @@ _start:
 def saved_machines(rep, thorough):
     """front-ends that save a machine themselves (JSON): bondgo in its multi-processor modes and bmbuilder, with standard and
     non-standard register sizes.  -> [(kind, what, json path, [assembly file per processor])], notes.
+    taps1/taps2: three goroutines chained through shared IO ids (an output and an input with the same id are one
+    processor-to-processor bond), each stage with one more output that nobody reads (a machine output), the internal
+    one declared first (taps1) or last (taps2).
     scoped1/scoped2: memory variables (names without the reg_ prefix live in RAM) local to bare nested blocks and to if/else
     branches, released and re-used across a power of two of RAM cells."""
     d = vlib.scratch_dir("c16" + vlib._REPO_TAG)
@@ -334,10 +443,12 @@ def saved_machines(rep, thorough):
         bg = vlib.go_build_repo("bondgo")
         for name, text in BONDGO_PROGS.items():
             open(os.path.join(d, name), "w").write(text)
-        runs = [("pipe2.go", ["-mpm"], 8), ("pipe2.go", ["-mpm"], 12), ("pipe3.go", ["-mpm"], 24), ("scoped1.go", ["-mpm"], 12), ("scoped2.go", ["-mpm"], 8)]
+        runs = [("pipe2.go", ["-mpm"], 8), ("pipe2.go", ["-mpm"], 12), ("pipe3.go", ["-mpm"], 24), ("scoped1.go", ["-mpm"], 12), ("scoped2.go", ["-mpm"], 8),
+                ("taps1.go", ["-mpm"], 8), ("taps2.go", ["-mpm"], 8)]
         if thorough:
             runs += [("pipe3.go", ["-mpm"], rs) for rs in (8, 16, 32, 64, 7, 12, 33)] + [("pipe2.go", ["-mpm"], rs) for rs in (16, 32, 64, 24)]
             runs += [("pipe3.go", ["-mpm", "-cascading-io"], rs) for rs in (8, 12)]
+            runs += [("taps1.go", ["-mpm"], rs) for rs in (12, 16)] + [("taps2.go", ["-mpm"], rs) for rs in (12, 16)]
             runs += [("scoped1.go", ["-mpm"], rs) for rs in (8, 24)] + [("scoped2.go", ["-mpm"], rs) for rs in (12, 24)]
         for prog, opts, rs in runs:
             outj = os.path.join(d, "bg-%s%s-%d.json" % (prog, "".join(opts), rs))
